@@ -192,6 +192,14 @@ static std::string run_tm_dst(int kind, const std::vector<int64_t>& dstv, const 
 			kit::W().disarm();
 			kit::W().logging = false;
 			uint64_t nc = 0; for (auto& e : kit::W().log) if (e[0] == 'C' && (e[1] == ' ' || e[1] == 'A') && e[2] != 'o') ++nc;
+			{	// structural validity first: walking an invalid tree would follow dangling pointers
+				std::string e1 = check_tree(src.set, 0), e2 = check_tree(dst.set, 0);
+				if (!e1.empty() || !e2.empty())
+				{
+					g_fired = false;
+					return st + " INVALID-TREE(" + (e1.empty() ? "destination: " + e2 : "source: " + e1) + ")";
+				}
+			}
 			out = st + " src=" + join_sorted(contents(src.set)) + " dst=" + (inorder ? join(contents(dst.set)) : join_sorted(contents(dst.set)));
 			if (E::movable) out += std::string(" copies=") + (nc == 0 ? "0" : "SOME");
 			size_t n0 = dst.set.GetCount();
@@ -322,6 +330,79 @@ static std::string run_sh(const std::vector<std::string>& w)
 			kit::W().logging = false;
 			std::vector<int64_t> v; for (size_t i = 0; i < arr.GetCount(); ++i) v.push_back(arr[i].Value());
 			out = st + " count=" + std::to_string(arr.GetCount()) + " items=" + join(v) + " " + tr;
+			g_fired = f;
+		}
+		return out;
+	});
+}
+
+// ------------------------------------------------------------------------------------------- ir / rp (bulk insert / remove)
+//   ir <cat> <kind> <dst> <args>          HashSet (reserved, Open8): Insert(args.begin(), args.end())
+//   rp <cat> <kind> <mod> <b0> <b1> ...   HashSet with the given bucket layout: Remove(pred), pred(x) = key(x) % mod == 0 (a func step)
+template<int C>
+static std::string run_ir(const std::vector<std::string>& w)
+{
+	typedef LE<C> E;
+	int kind = kind_of(w[2]);
+	std::vector<int64_t> dstv = ints(w[3]), argv = ints(w[4]);
+	return enumerate(kind, [&] (int kd, long k) -> std::string
+	{
+		std::string out;
+		{
+			HSet<E> set(htraits<HSet<E>>(), kit::MM(1));
+			set.Reserve(100);
+			for (int64_t v : dstv) set.Insert(E(v));
+			std::vector<E> args; args.reserve(argv.size());
+			for (int64_t v : argv) args.emplace_back(v);
+			kit::W().log.clear(); kit::W().logging = true;
+			arm_kind(kd, k);
+			std::string st = "S";
+			try { set.Insert(args.begin(), args.end()); }
+			catch (const std::bad_alloc&) { st = "Ea"; } catch (const kit::InjectedCopy&) { st = "Ec"; } catch (const kit::InjectedFunc&) { st = "Ef"; }
+			bool f = fired(kd);
+			kit::W().disarm();
+			std::string tr = value_trace();
+			kit::W().logging = false;
+			out = st + " dst=" + join_sorted(contents(set)) + " " + tr;
+			for (size_t i = 0; i < args.size(); ++i) if (args[i].Value() != argv[i]) out += " ARGS-MODIFIED";
+			size_t n = 0; for (const auto& e : set) { (void)e; ++n; } if (n != set.GetCount()) out += " UNUSABLE";
+			g_fired = f;
+		}
+		return out;
+	});
+}
+template<int C>
+static std::string run_rp(const std::vector<std::string>& w)
+{
+	typedef LE<C> E;
+	int kind = kind_of(w[2]);
+	int64_t mod = std::stoll(w[3]);
+	std::vector<std::vector<int64_t>> bks;
+	for (size_t i = 4; i < w.size(); ++i) bks.push_back(ints(w[i]));
+	while (bks.size() < BC) bks.push_back({});
+	return enumerate(kind, [&] (int kd, long k) -> std::string
+	{
+		std::string out;
+		{
+			HSet<E> src(htraits<HSet<E>>(), kit::MM(1));
+			src.Reserve(20);
+			for (auto& b : bks) for (int64_t v : b) src.Insert(E(v));
+			if (src.mBuckets == nullptr || src.mBuckets->GetCount() != BC) return "BAD-BUCKET-COUNT";
+			std::string want; for (size_t i = 0; i < bks.size(); ++i) { if (i) want += "|"; want += join(bks[i]); }
+			if (layout(src) != want) return "BAD-LAYOUT " + layout(src);
+			auto pred = [mod] (const E& e) { kit::W().step_func(); return keyof(e.Value()) % mod == 0; };
+			kit::W().log.clear(); kit::W().logging = true;
+			arm_kind(kd, k);
+			std::string st = "S";
+			try { src.Remove(pred); }
+			catch (const std::bad_alloc&) { st = "Ea"; } catch (const kit::InjectedCopy&) { st = "Ec"; } catch (const kit::InjectedFunc&) { st = "Ef"; }
+			bool f = fired(kd);
+			kit::W().disarm();
+			std::string tr = value_trace();
+			kit::W().logging = false;
+			out = st + " src=" + layout(src) + " " + tr;
+			size_t n = 0; for (const auto& e : src) { (void)e; ++n; } if (n != src.GetCount()) out += " UNUSABLE";
+			src.Insert(E(99999));
 			g_fired = f;
 		}
 		return out;
@@ -468,6 +549,8 @@ static std::string dispatch(const std::vector<std::string>& w)
 	if (w[0] == "hm") return run_hm<C>(w);
 	if (w[0] == "tm" || w[0] == "lm" || w[0] == "fm") return run_tm<C>(w);
 	if (w[0] == "xi") return run_xi<C>(w);
+	if (w[0] == "ir") return run_ir<C>(w);
+	if (w[0] == "rp") return run_rp<C>(w);
 	if (w[0] == "sh") return run_sh<C>(w);
 	return "?";
 }
